@@ -134,6 +134,11 @@ func Compare(ctx context.Context, env *univ.Env, srv *drive.Server, doc *ast.Que
 		if d := drive.DiffStrings(w.Invocations, o.Got.Invocations); d != "" {
 			return "invocations", d
 		}
+		// every directive the operation applies is invoked (the same multiset of (path, directive)
+		// calls), also when its outcome happens to be "pass" and leaves no other trace
+		if d := drive.DiffStrings(execDirCalls(w.DirCalls), execDirCalls(o.Got.DirCalls)); d != "" {
+			return "directive calls", d
+		}
 		return "", ""
 	}
 	what, d := match(o.Want)
@@ -147,6 +152,19 @@ func Compare(ctx context.Context, env *univ.Env, srv *drive.Server, doc *ast.Que
 	}
 	o.Mismatch, o.Detail = what, d
 	return o
+}
+
+// execDirCalls drops the calls of argument / input-field directives (universal name prefix "chk"):
+// they run during argument coercion, which the reference does not model call by call.
+func execDirCalls(calls []string) []string {
+	var out []string
+	for _, c := range calls {
+		if i := strings.IndexByte(c, '|'); i >= 0 && strings.HasPrefix(c[i+1:], "chk") {
+			continue
+		}
+		out = append(out, c)
+	}
+	return out
 }
 
 // Describe renders both sides for a replay file.
